@@ -1,6 +1,7 @@
 package main
 
 import (
+	"go/types"
 	"go/token"
 	"sort"
 	"strings"
@@ -126,13 +127,13 @@ func ruleMapDelegates(c *Ctx, r *R) {
 		fn := meths[n]
 		key := "xsync.Map." + n
 		var calls []*ssa.Call
-		instrs(fn, func(b *ssa.BasicBlock, i int, in ssa.Instruction) {
-			if call, ok := in.(*ssa.Call); ok {
+		for _, d := range deepInstrs(fn, 2) {
+			if call, ok := d.in.(*ssa.Call); ok {
 				if cal := call.Call.StaticCallee(); cal != nil && cal.Signature.Recv() != nil && isNamedType(cal.Signature.Recv().Type(), "sync", "Map") {
 					calls = append(calls, call)
 				}
 			}
-		})
+		}
 		if len(calls) != 1 {
 			r.violated(key, fn.Pos(), "must delegate to exactly one sync.Map call, found "+itoa(len(calls)))
 			continue
@@ -179,16 +180,21 @@ func ruleMapDelegates(c *Ctx, r *R) {
 				if !ok || len(ret.Results) == 0 {
 					return
 				}
-				res := ret.Results[len(ret.Results)-1]
-				if _, isC := res.(*ssa.Const); isC {
-					return
-				}
-				constOnly = false
-				if ex, ok := res.(*ssa.Extract); ok && ex.Tuple == ssa.Value(call) {
-					okBool = true
-				}
-				if res == ssa.Value(call) {
-					okBool = true
+				for _, lf := range valueLeaves(ret.Results[len(ret.Results)-1], nil, 0) {
+					res := lf.v
+					if _, isC := res.(*ssa.Const); isC {
+						continue
+					}
+					constOnly = false
+					if ex, ok := res.(*ssa.Extract); ok && ex.Tuple == ssa.Value(call) {
+						okBool = true
+					}
+					if te, ok := res.(*tupleElem); ok && te.tuple == ssa.Value(call) && te.idx == call.Type().(*types.Tuple).Len()-1 {
+						okBool = true
+					}
+					if res == ssa.Value(call) {
+						okBool = true
+					}
 				}
 			})
 			if !okBool && !constOnly && fn.Signature.Results().Len() == 2 {
@@ -231,21 +237,40 @@ func ruleFutureOrder(c *Ctx, r *R) {
 			r.undecided(name+"|missing", token.NoPos, "anchor not found")
 			continue
 		}
-		// blocks that have observed a receive from f.c
-		var recvBlocks []*ssa.BasicBlock
-		var recvInstr = map[*ssa.BasicBlock]ssa.Instruction{}
-		for _, op := range chanOpsOf(fn) {
-			for _, a := range op.arms {
-				if !a.send && fieldOfChan(a.ch) == "c" {
-					if op.kind == "select" && a.body != nil {
-						recvBlocks = append(recvBlocks, a.body)
-					} else if op.kind != "select" {
-						recvBlocks = append(recvBlocks, op.in.Block())
-						recvInstr[op.in.Block()] = op.in
-					}
-				}
+		// typestate: 0 = no receive from f.c observed yet, 1 = observed (directly, in a select arm, or inside a helper that
+		// reports it through its boolean result)
+		pkgOf := fn.Pkg
+		pf := &PF{N: 2, InScope: func(f *ssa.Function) bool { return f.Pkg == pkgOf && f.Blocks != nil && f != fn }}
+		isC := func(ch ssa.Value) bool { return fieldOfChan(ch) == "c" }
+		pf.Instr = func(f *ssa.Function, in ssa.Instruction, q int) (StateSet, bool) {
+			if u, ok := in.(*ssa.UnOp); ok && u.Op == token.ARROW && isC(u.X) {
+				return ss(1), true
 			}
+			return 0, false
 		}
+		pf.Edge = func(f *ssa.Function, g guard, q int) (StateSet, bool) {
+			cf, ok := g.asCmp()
+			if !ok || cf.op != token.EQL {
+				return 0, false
+			}
+			ex, ok := cf.x.(*ssa.Extract)
+			if !ok || ex.Index != 0 {
+				return 0, false
+			}
+			sel, ok := ex.Tuple.(*ssa.Select)
+			k, isK := cf.y.(*ssa.Const)
+			if !ok || !isK || k.Value == nil {
+				return 0, false
+			}
+			idx := int(k.Int64())
+			if idx >= 0 && idx < len(sel.States) && sel.States[idx].Dir == types.RecvOnly && isC(sel.States[idx].Chan) {
+				return ss(1), true
+			}
+			return 0, false
+		}
+		before := map[ssa.Instruction]StateSet{}
+		pf.Visit = func(f *ssa.Function, in ssa.Instruction, s StateSet) { before[in] = s }
+		pf.Exits(fn, ss(0))
 		n := 0
 		instrs(fn, func(b *ssa.BasicBlock, i int, in ssa.Instruction) {
 			ld, ok := in.(*ssa.UnOp)
@@ -257,16 +282,8 @@ func ruleFutureOrder(c *Ctx, r *R) {
 				return
 			}
 			n++
-			after := false
-			for _, rb := range recvBlocks {
-				if rb.Dominates(b) {
-					if ri, same := recvInstr[rb]; same && rb == b {
-						after = idxIn(ri) < i
-					} else {
-						after = true
-					}
-				}
-			}
+			st, seen := before[in]
+			after := seen && !st.has(0)
 			r.ok(after, name+"|read-x-after-recv#"+itoa(n), ld.Pos(), "f.x may be read only after a receive from f.c (happens-after Fill's close)")
 			// and the value read is what is returned
 			retd := false
@@ -355,31 +372,40 @@ func ruleWatchable(c *Ctx, r *R) {
 	r.ok(okT && okC, "xsync.Watchable.Set|fresh-cell", set.Pos(), "Set must build a new cell holding the new value and a freshly made channel")
 	r.ok(okSwap, "xsync.Watchable.Set|swaps-new-cell", set.Pos(), "Set must atomically Swap the new cell in (so exactly one Set observes each previous cell)")
 	nClose := 0
-	instrs(set, func(b *ssa.BasicBlock, i int, in ssa.Instruction) {
-		call, ok := in.(*ssa.Call)
+	for _, d := range deepInstrs(set, 2) {
+		call, ok := d.in.(*ssa.Call)
 		if !ok {
-			return
+			continue
 		}
 		bi, ok := call.Call.Value.(*ssa.Builtin)
 		if !ok || bi.Name() != "close" {
-			return
+			continue
 		}
 		nClose++
-		// operand is old.c where old is the Swap result; guarded by old != nil
-		okOld := false
-		if ld, ok := call.Call.Args[0].(*ssa.UnOp); ok {
-			if fa, ok := ld.X.(*ssa.FieldAddr); ok && fa.X == ssa.Value(swap) && fieldName(fa.X.Type(), fa.Field) == "c" {
-				okOld = true
-			}
-		}
+		// operand is old.c where old is the Swap result; guarded by old != nil (here or in the helper that closes)
+		env := provEnv{chain: d.calls}
+		pv := valueProv(call.Call.Args[0], env)
+		okOld := swap != nil && pv.root == ssa.Value(swap) && len(pv.fields) == 1 && pv.fields[0] == "c"
 		guarded := false
-		for _, g := range guardsOf(b) {
-			if cf, ok := g.asCmp(); ok && cf.x == ssa.Value(swap) && cf.op == token.NEQ && isNilConst(cf.y) {
-				guarded = true
+		frames := append([]ssa.Instruction{}, d.in)
+		for _, cc := range d.calls {
+			frames = append(frames, cc)
+		}
+		for fi, in := range frames {
+			chain := d.calls
+			if fi > 0 {
+				chain = d.calls[:fi-1]
+			}
+			for _, g := range guardsOf(in.Block()) {
+				if cf, ok := g.asCmp(); ok && cf.op == token.NEQ && isNilConst(cf.y) {
+					if gv := valueProv(cf.x, provEnv{chain: chain}); swap != nil && gv.root == ssa.Value(swap) && len(gv.fields) == 0 {
+						guarded = true
+					}
+				}
 			}
 		}
 		r.ok(okOld && guarded, "xsync.Watchable.Set|closes-previous", call.Pos(), "Set must close the channel of exactly the cell it replaced, when there was one")
-	})
+	}
 	if nClose != 1 {
 		r.violated("xsync.Watchable.Set|closes-previous", set.Pos(), "expected exactly one close in Set, found "+itoa(nClose))
 	}
@@ -387,8 +413,8 @@ func ruleWatchable(c *Ctx, r *R) {
 	// Value
 	var cas *ssa.Call
 	var empty *ssa.Alloc
-	instrs(val, func(b *ssa.BasicBlock, i int, in ssa.Instruction) {
-		if call, ok := in.(*ssa.Call); ok {
+	for _, d := range deepInstrs(val, 2) {
+		if call, ok := d.in.(*ssa.Call); ok {
 			if isCallTo(&call.Call, "sync/atomic", "Pointer", "CompareAndSwap") {
 				cas = call
 				if al, ok := call.Call.Args[2].(*ssa.Alloc); ok {
@@ -396,7 +422,7 @@ func ruleWatchable(c *Ctx, r *R) {
 				}
 			}
 		}
-	})
+	}
 	if cas == nil || empty == nil {
 		r.violated("xsync.Watchable.Value|cas", val.Pos(), "Value must install its placeholder with CompareAndSwap")
 		return
@@ -412,8 +438,50 @@ func ruleWatchable(c *Ctx, r *R) {
 		}
 	}
 	r.ok(loadNil, "xsync.Watchable.Value|cas-only-when-empty", cas.Pos(), "the placeholder path must be taken only when Load() returned nil")
-	// every return: (t, c) from one cell; a return of the placeholder's channel must be dominated by CAS success
+	// every return: (t, c) from one cell; the placeholder (its channel) may be returned only where the CAS succeeded; any
+	// other cell comes from an atomic Load. Cells may travel through a helper's result and merges.
+	casOK := func(b *ssa.BasicBlock) bool {
+		for _, g := range guardsOf(b) {
+			if v, vv := g.boolVal(); v == ssa.Value(cas) && vv {
+				return true
+			}
+		}
+		return false
+	}
+	// cellLeaves: where can the cell pointer v (used in block b) come from?  each leaf with the block it is produced/selected in
+	type leaf struct {
+		v ssa.Value
+		b *ssa.BasicBlock
+	}
+	var leaves func(v ssa.Value, b *ssa.BasicBlock, d int) []leaf
+	leaves = func(v ssa.Value, b *ssa.BasicBlock, d int) []leaf {
+		if d > 5 {
+			return []leaf{{v, b}}
+		}
+		switch x := v.(type) {
+		case *ssa.Phi:
+			var out []leaf
+			for i, e := range x.Edges {
+				out = append(out, leaves(e, x.Block().Preds[i], d+1)...)
+			}
+			return out
+		case *ssa.Call:
+			if cal := staticCallee(&x.Call); cal != nil && cal.Blocks != nil && !isCallTo(&x.Call, "sync/atomic", "Pointer", "Load") {
+				var out []leaf
+				instrs(cal, func(bb *ssa.BasicBlock, i int, in ssa.Instruction) {
+					if ret, ok := in.(*ssa.Return); ok && len(ret.Results) == 1 {
+						out = append(out, leaves(ret.Results[0], bb, d+1)...)
+					}
+				})
+				if len(out) > 0 {
+					return out
+				}
+			}
+		}
+		return []leaf{{v, b}}
+	}
 	n := 0
+	sawPlaceholder, sawLoaded := false, false
 	instrs(val, func(b *ssa.BasicBlock, i int, in ssa.Instruction) {
 		ret, ok := in.(*ssa.Return)
 		if !ok || len(ret.Results) != 2 {
@@ -422,28 +490,12 @@ func ruleWatchable(c *Ctx, r *R) {
 		n++
 		key := "xsync.Watchable.Value|return#" + itoa(n)
 		chv := ret.Results[1]
-		// which cell does the channel come from?
-		fromEmpty := false
-		if mc, ok := chv.(*ssa.MakeChan); ok {
-			// the channel stored into the placeholder
-			_ = mc
-			fromEmpty = true
-		} else if ld, ok := chv.(*ssa.UnOp); ok {
-			if fa, ok := ld.X.(*ssa.FieldAddr); ok && fa.X == ssa.Value(empty) {
-				fromEmpty = true
-			}
-		}
-		if fromEmpty {
-			succ := false
-			for _, g := range guardsOf(b) {
-				if v, vv := g.boolVal(); v == ssa.Value(cas) && vv {
-					succ = true
-				}
-			}
-			r.ok(succ, key, retPos(ret), "the placeholder's channel may be returned only when the CompareAndSwap succeeded; otherwise no Set will ever close it and the observer blocks forever on a stale value")
+		// the placeholder's channel returned directly (the MakeChan stored into it, or its field)
+		if _, ok := chv.(*ssa.MakeChan); ok {
+			sawPlaceholder = true
+			r.ok(casOK(b), key, retPos(ret), "the placeholder's channel may be returned only when the CompareAndSwap succeeded; otherwise no Set will ever close it and the observer blocks forever on a stale value")
 			return
 		}
-		// otherwise t and c must be fields of the same loaded cell, and that cell comes from a Load (re-load after failed CAS, or the first load when non-nil)
 		var baseT, baseC ssa.Value
 		if ld, ok := ret.Results[0].(*ssa.UnOp); ok {
 			if fa, ok := ld.X.(*ssa.FieldAddr); ok {
@@ -455,33 +507,43 @@ func ruleWatchable(c *Ctx, r *R) {
 				baseC = fa.X
 			}
 		}
+		if baseC == ssa.Value(empty) {
+			sawPlaceholder = true
+			r.ok(casOK(b), key, retPos(ret), "the placeholder's channel may be returned only when the CompareAndSwap succeeded; otherwise no Set will ever close it and the observer blocks forever on a stale value")
+			return
+		}
 		same := baseT != nil && baseT == baseC
-		fromLoad := false
-		var walk func(v ssa.Value, d int) bool
-		walk = func(v ssa.Value, d int) bool {
-			if d > 4 {
-				return false
-			}
-			switch x := v.(type) {
-			case *ssa.Call:
-				return isCallTo(&x.Call, "sync/atomic", "Pointer", "Load")
-			case *ssa.Phi:
-				for _, e := range x.Edges {
-					if !walk(e, d+1) {
-						return false
+		good := same
+		why := "value and channel are not read from one and the same cell"
+		if same {
+			for _, lf := range leaves(baseT, b, 0) {
+				switch x := lf.v.(type) {
+				case *ssa.Call:
+					if isCallTo(&x.Call, "sync/atomic", "Pointer", "Load") {
+						sawLoaded = true
+						continue
 					}
+					good, why = false, "the cell comes from "+calleeName(&x.Call)+", not from an atomic Load"
+				case *ssa.Alloc:
+					if x == empty {
+						sawPlaceholder = true
+						if !casOK(lf.b) {
+							good, why = false, "the placeholder is handed out on a path where the CompareAndSwap did not succeed: no Set will ever close its channel and the observer blocks forever on a stale value"
+						}
+						continue
+					}
+					good, why = false, "the cell is a local object that was never published"
+				default:
+					good, why = false, "cannot tell where the cell "+path(lf.v)+" comes from"
 				}
-				return true
 			}
-			return false
 		}
-		if baseT != nil {
-			fromLoad = walk(baseT, 0)
-		}
-		r.ok(same && fromLoad, key, retPos(ret), "value and channel must be read from one and the same atomically loaded cell (after a failed CAS: from a fresh Load)")
+		r.ok(good, key, retPos(ret), "value and channel must be read from one and the same atomically loaded cell (after a failed CAS: from a fresh Load), or from the placeholder where its CAS succeeded: "+why)
 	})
-	if n < 2 {
+	if !(sawPlaceholder && sawLoaded) {
 		r.violated("xsync.Watchable.Value|returns", val.Pos(), "expected a placeholder return and a loaded-cell return")
+	} else {
+		r.discharged("xsync.Watchable.Value|returns", val.Pos(), "both the placeholder and a loaded cell can be returned")
 	}
 }
 
